@@ -17,3 +17,4 @@ def run(ck):
     region.r7_10_axis_symmetry(ck, P)
     region.r6_8_extents_before_data_is_dropped(ck, P, 'C07-R12')
     region.r7_11_limits_are_type_limits(ck, P)
+    region.r7_13_or_trick_exactness(ck, P)
